@@ -484,6 +484,28 @@ def run(ctx):
                 start = (bool(want.get('SKIP', False)), ())
                 cases.append(dict(doc=render(events, SHAPES), expect=spec_trace(events, start), events=events, default=dict(got)))
     ctx.count('cli_option_lists', nopt)
+    # the same against Model/CliOptions.v, also for lists that mention a name twice (the last mention counts, the entry keeps its place)
+    lists = []
+    for _ in range(400 if ctx.tier == 'quick' else 6000):
+        lists.append([(rng.choice(names), rng.random() < 0.5) for _k in range(rng.randint(0, 6))])
+    ans = common.model_batch([('populate_from_cli', [[k, b] for k, b in ol]) for ol in lists])
+    for ol, m in zip(lists, ans):
+        ctx.evaluations += 1
+        text = ','.join(('+' if b else '-') + k for k, b in ol)
+        try:
+            got = list(doctest_example.DoctestConfig()._populate_from_cli(dict(NS, options=text))['default_runtime_state'].items())
+        except Exception as e:      # noqa
+            got = 'raised %s' % type(e).__name__
+        rule = {}
+        for k, b in ol:
+            rule[k] = b
+        mm = [(k, bool(v)) for k, v in m] if isinstance(m, list) else m
+        if got != mm or got != list(rule.items()):
+            ctx.violation('cli-defaults', {'what': '--options=%r gives %r, the model %r, the list read left to right %r' % (text, got, mm, list(rule.items())), 'options_text': text,
+                                           'theorem_or_correspondence': 'C04_cli_defaults_last_mention / Model.CliOptions.populate_from_cli vs DoctestConfig._populate_from_cli'},
+                          got != list(rule.items()))
+            break
+    ctx.count('cli_option_lists_vs_model', len(lists))
     # "a skipped statement has no effect at all": also not on what a later want is compared with.  Output printed before a
     # skipped statement (with or without a want of its own) still belongs to the next executed want
     for skipdir in ('+SKIP', '+REQUIRES(%s)' % UA, '+REQUIRES(%s)' % UB):
